@@ -20,7 +20,11 @@ PROPERTY = 'C07'
 
 RULEKINDS = ['leaf', 'expr', 'deny-const', 'allow-const', 'unknown-name',
              'unknown-name-with-default', 'empty-store', 'check-object',
-             'scoped-registered', 'scoped-object']
+             'scoped-registered', 'scoped-object',
+             # a check object that PRINTS like a registered policy name is
+             # still a check object: enforce evaluates it, authorize knows
+             # no such name
+             'object-printing-like-registered-name']
 EXCKINDS = ['none', 'custom-noargs', 'custom-args', 'custom-kwargs',
             # extras forwarded although no class was requested (a wrapper
             # passing exc=None, action=...): still PolicyNotAuthorized
@@ -96,6 +100,10 @@ def _build(ctx, rulekind):
         arg = _parser.parse_rule('sym:a')
         arg.scope_types = ['project']
         want = _leaf('a')
+    elif rulekind == 'object-printing-like-registered-name':
+        defaults = [policy.RuleDefault('sym:a', 'sym:b')]
+        arg = _parser.parse_rule('sym:a')
+        want = _leaf('a')
     enf = policy.Enforcer(conf, rules=policy.Rules.from_dict(rules),
                           use_conf=False)
     enf.suppress_deprecation_warnings = True
@@ -123,8 +131,6 @@ def run_modes(ctx, rulekind, exckind, via, debug):
     try:
         enf, arg, want = _build(ctx, rulekind)
         registered = rulekind == 'scoped-registered'
-        if via == 'authorize' and not isinstance(arg, str):
-            return
         creds = {'user_id': 'u', 'roles': ['member'],
                  'password': 'secret'}
         if ctx.bool('system_scoped'):
